@@ -1865,12 +1865,11 @@ def note_array_from_part_list(
 
     if is_score:
         # rescale if parts have different divs
-        divs_per_parts = [
-            part_na[0]["divs_pq"] for part_na in note_array if len(part_na)
-        ]
-        lcm = np.lcm.reduce(divs_per_parts)
-        time_multiplier_per_part = [int(lcm / d) for d in divs_per_parts]
         non_empty_note_arrays = [part_na for part_na in note_array if len(part_na)]
+        divs_per_parts = [part_na[0]["divs_pq"] for part_na in non_empty_note_arrays]
+        # no part has any note: nothing to rescale
+        lcm = np.lcm.reduce(divs_per_parts) if divs_per_parts else 1
+        time_multiplier_per_part = [int(lcm / d) for d in divs_per_parts]
         for na, time_mult in zip(non_empty_note_arrays, time_multiplier_per_part):
             na["onset_div"] = na["onset_div"] * time_mult
             na["duration_div"] = na["duration_div"] * time_mult
